@@ -1720,4 +1720,203 @@ theorem parseTextBlock_ev (hw : WFI off w ts) {b : Nat} (h : GE (TopInv off w b)
   rintro _ s2 ⟨g2, c2⟩
   exact Sat.pushEv ⟨g2.push (g2.evs.pushNone trivial rfl), c2⟩
 
+theorem sectionP_ev (hc : Ctx off w Pv ts) (h : GE Pv ts e s) :
+    Sat (sectionP (α := α)) s (fun r s' => GE Pv ts e s' ∧ (r.isSome = true → s'.cur = ts.length) ∧
+      CompRet off w ts s.cur s'.cur r) := by
+  unfold sectionP
+  refine Sat.bind (Sat.mono (consumeK_ge _ h) ?_)
+  rintro r1 s1 ⟨g1, h1⟩
+  cases r1 with
+  | none => exact Sat.pure ⟨g1, by simp, trivial⟩
+  | some m =>
+    obtain ⟨-, -, c1⟩ := h1
+    refine Sat.bind (Sat.mono (consumeWhile_ge _ g1) ?_)
+    rintro _ s2 ⟨g2, c2, -, -, -⟩
+    refine Sat.bind (currentOffset_sat g2.g ?_)
+    refine Sat.bind (Sat.mono (consumeWhile_ge _ g2) ?_)
+    rintro nameT s3 ⟨g3, c3, hn, -, -⟩
+    have hr : RunIn off w (offAt ts s2.cur) nameT := by rw [hn]; exact hc.wfi.slice c3
+    have hrg := hr.text_range
+    have e1 : lastStop (offAt ts s2.cur) nameT = offAt ts s3.cur := by rw [hn]; exact offAt_slice c3
+    rw [e1] at hrg
+    refine Sat.bind (bpText_sat hr.run ?_)
+    refine Sat.bind (Sat.mono (consumeWhile_ge _ g3) ?_)
+    rintro _ s4 ⟨g4, c4, -, -, -⟩
+    unfold wsComments
+    refine Sat.bind (Sat.mono (consumeWhile_ge _ g4) ?_)
+    rintro _ s5 ⟨g5, c5, -, -, -⟩
+    refine Sat.bind (restToks_sat g5.g ?_)
+    split
+    · rename_i hne
+      refine Sat.bind (Sat.pwarnE ?_)
+      refine Sat.pure ⟨g5.warn hc (one_label ?_), by simp, trivial⟩
+      rw [drop_eq_slice]
+      apply (hc.wfi.slice g5.le).tokensSpan
+      rw [← drop_eq_slice]; intro h0; rw [h0] at hne; simp at hne
+    · rename_i hemp
+      refine Sat.bind (Sat.get ?_)
+      have := drop_isEmpty_true (ts := ts) (c := s5.cur) (by simpa using hemp)
+      have := g5.le
+      refine Sat.pure ⟨g5, fun _ => by omega, ?_, ?_⟩
+      · show OptOK (TextOK off w) (if _ then none else some _)
+        split
+        · trivial
+        · exact hr.text
+      · intro sp hsp
+        split at hsp
+        · simp [Ev.srcSpan] at hsp
+        · simp only [Ev.srcSpan, Option.some.injEq] at hsp
+          subst hsp
+          have h1 := hc.wfi.offAt_mono (show s.cur ≤ s2.cur by omega)
+          have h2 := hc.wfi.offAt_mono (show s3.cur ≤ s5.cur by omega)
+          exact ⟨by omega, by omega⟩
+
+theorem metadataEntry_ev (hc : Ctx off w Pv ts) (h : GE Pv ts e s) :
+    Sat (metadataEntry (α := α)) s (fun r s' => GE Pv ts e s' ∧ (r.isSome = true → s'.cur = ts.length) ∧
+      CompRet off w ts s.cur s'.cur r) := by
+  unfold metadataEntry
+  refine Sat.bind (Sat.mono (consumeK_ge _ h) ?_)
+  rintro r1 s1 ⟨g1, h1⟩
+  cases r1 with
+  | none => exact Sat.pure ⟨g1, by simp, trivial⟩
+  | some m =>
+    obtain ⟨-, -, c1⟩ := h1
+    refine Sat.bind (currentOffset_sat g1.g ?_)
+    refine Sat.bind (Sat.mono (untilK_ge _ g1) ?_)
+    rintro r2 s2 ⟨g2, h2⟩
+    cases r2 with
+    | none =>
+      unfold bpSpan
+      refine Sat.bind (Sat.bind (Sat.get ?_))
+      refine tokensSpanP_sat (by rw [g2.g.toks]; exact hc.wfi.ne) ?_
+      refine Sat.bind (Sat.pwarnE ?_)
+      refine Sat.pure ⟨g2.warn hc (one_label ?_), by simp, trivial⟩
+      rw [g2.g.toks]; exact hc.wfi.all
+    | some keyT =>
+      obtain ⟨c2, hkey, ⟨c, hcl, hck⟩, -⟩ := h2
+      have hr : RunIn off w (offAt ts s1.cur) keyT := by rw [hkey]; exact hc.wfi.slice c2
+      refine Sat.bind (bpText_sat hr.run ?_)
+      refine Sat.bind (Sat.mono (bump_ge g2 hcl (by simpa using hck)) ?_)
+      rintro _ s3 ⟨-, g3, c3⟩
+      refine Sat.bind (currentOffset_sat g3.g ?_)
+      refine Sat.bind (Sat.mono (consumeRest_ge g3) ?_)
+      rintro valT s4 ⟨g4, c4, hv⟩
+      have hr2 : RunIn off w (offAt ts s3.cur) valT := by rw [hv]; exact hc.wfi.slice g3.le
+      refine Sat.bind (bpText_sat hr2.run ?_)
+      refine Sat.bind (Sat.get ?_)
+      dsimp only
+      have hok : EvSpansOK off w (Ev.metadata (α := α) (buildText (offAt ts s1.cur) keyT)
+          (buildText (offAt ts s3.cur) valT)) := ⟨hr.text, hr2.text⟩
+      have hin : EvIn ts s.cur s4.cur (Ev.metadata (α := α) (buildText (offAt ts s1.cur) keyT)
+          (buildText (offAt ts s3.cur) valT)) := by
+        intro sp hsp
+        simp only [Ev.srcSpan, Option.some.injEq] at hsp
+        subst hsp
+        have hrg := hr.text_range
+        have hrg2 := hr2.text_range
+        have e2 : lastStop (offAt ts s3.cur) valT = offAt ts s4.cur := by
+          rw [hv, c4]; exact offAt_slice g3.le
+        rw [e2] at hrg2
+        have h1 := hc.wfi.offAt_mono (show s.cur ≤ s1.cur by omega)
+        exact ⟨by show offAt ts s.cur ≤ (buildText _ keyT).span.start; omega, hrg2.2⟩
+      split
+      · refine Sat.bind (Sat.perrE ?_)
+        exact Sat.pure ⟨g4.err hc (one_label hr.text.1), fun _ => c4, hok, hin⟩
+      · split
+        · refine Sat.bind (Sat.pwarnE ?_)
+          exact Sat.pure ⟨g4.warn hc (two_labels hr2.text.1 hr.text.1), fun _ => c4, hok, hin⟩
+        · exact Sat.pure ⟨g4, fun _ => c4, hok, hin⟩
+
+theorem parseMultilineBlock_ev (hw : WFI off w ts) (hz : Boundary off w 0) {b : Nat}
+    (h : GE (TopInv off w b) ts e s) (hb : b ≤ offAt ts s.cur) :
+    Sat (parseMultilineBlock (α := α)) s
+      (fun _ s' => GE (TopInv off w (offAt ts ts.length)) ts e s' ∧ s'.cur = ts.length) := by
+  unfold parseMultilineBlock
+  refine Sat.bind (allToks_sat h.g ?_)
+  split
+  · refine Sat.bind (Sat.mono (consumeRest_ge h) ?_)
+    rintro _ s1 ⟨g1, c1, -⟩
+    exact Sat.pure ⟨g1.bound (Nat.le_trans hb (hw.offAt_mono h.le)), c1⟩
+  · refine Sat.bind (peekK_sat h.g ?_)
+    split
+    · exact parseTextBlock_ev hw h hb
+    · exact parseStep_ev hw hz h hb
+
+theorem parseBlock_ev (oldStyle : Bool) (hw : WFI off w ts) (hz : Boundary off w 0) {b : Nat}
+    (h : GE (TopInv off w b) ts e s) (hb : b ≤ offAt ts s.cur) :
+    Sat (parseBlock (α := α) oldStyle) s
+      (fun _ s' => GE (TopInv off w (offAt ts ts.length)) ts e s' ∧ s'.cur = ts.length) := by
+  have hc := topCtx (α := α) hw b
+  unfold parseBlock
+  apply Sat.bind
+  apply Sat.mono (Q := fun r s' => GE (TopInv off w b) ts e s' ∧
+    match r with
+    | none => s'.cur = s.cur
+    | some ev => s'.cur = ts.length ∧ EvSpansOK off w ev ∧ EvIn ts s.cur ts.length ev)
+  · refine Sat.bind (peekK_sat h.g ?_)
+    split
+    · apply withRecover_sat
+      refine Sat.bind (Sat.mono (metadataEntry_ev hc h) ?_)
+      rintro r1 s1 ⟨g1, h1, h2⟩
+      split
+      · refine Sat.bind (Sat.get ?_)
+        refine Sat.bind (hasExt_sat g1.g ?_)
+        split
+        · refine Sat.pure ⟨g1, h1 rfl, h2.1, ?_⟩
+          have := h2.2
+          rw [h1 rfl] at this
+          exact this
+        · exact Sat.pure ⟨g1.setCur h.le, rfl⟩
+      · exact Sat.pure ⟨g1.setCur h.le, rfl⟩
+    · apply withRecover_sat
+      refine Sat.mono (sectionP_ev hc h) ?_
+      rintro r1 s1 ⟨g1, h1, h2⟩
+      cases r1 with
+      | none => exact ⟨g1.setCur h.le, rfl⟩
+      | some ev =>
+        refine ⟨g1, h1 rfl, h2.1, ?_⟩
+        have := h2.2
+        rw [h1 rfl] at this
+        exact this
+    · exact Sat.pure ⟨h, rfl⟩
+  rintro r s1 ⟨g1, h1⟩
+  cases r with
+  | some ev =>
+    obtain ⟨c1, hok, hin⟩ := h1
+    have hbl : b ≤ offAt ts ts.length := Nat.le_trans hb (hw.offAt_mono h.le)
+    refine Sat.pushEv ⟨g1.push (g1.evs.push hok hbl ?_), c1⟩
+    intro sp hsp
+    obtain ⟨h2, h3⟩ := hin sp hsp
+    exact ⟨Nat.le_trans hb h2, h3⟩
+  | none =>
+    dsimp only at h1
+    exact parseMultilineBlock_ev hw hz g1 (by rw [h1]; exact hb)
+
+/-- **one block**: if the queue is fine before (`TopInv` with all content events ending at or before
+    the start of the block), it is fine after, with all content events ending at or before the end
+    of the block -/
+theorem runBlock_ev (cs : CharSpec) (ext : Ext) (oldStyle : Bool) (blk : List Tok) (evs : Array (Ev α))
+    (hw : WFI off w blk) (hz : Boundary off w 0) {b : Nat} (hinv : TopInv off w b evs)
+    (hb : b ≤ baseOff blk) :
+    TopInv off w (offAt blk blk.length) (runBlock cs ext oldStyle blk evs none).1 := by
+  have g0 : GE (TopInv off w b) blk ext (⟨blk, 0, ext, cs, evs, none⟩ : BP α) :=
+    ⟨⟨rfl, rfl, rfl, Nat.zero_le _⟩, hinv⟩
+  have hne : blk.isEmpty = false := by
+    have := hw.ne
+    cases blk <;> simp_all
+  have key : Sat (do
+      if blk.isEmpty then panicWith "BlockParser::new: empty tokens"
+      parseBlock (α := α) oldStyle
+      let s ← get
+      if s.cur ≠ s.toks.length then panicWith "Block tokens not parsed") ⟨blk, 0, ext, cs, evs, none⟩
+      (fun _ s' => TopInv off w (offAt blk blk.length) s'.evs) := by
+    simp only [hne, Bool.false_eq_true, if_false]
+    refine Sat.bind (Sat.mono (parseBlock_ev oldStyle hw hz g0 (by rw [offAt_zero]; exact hb)) ?_)
+    rintro _ s1 ⟨g1, c1⟩
+    refine Sat.bind (Sat.get ?_)
+    have : s1.cur = s1.toks.length := by rw [g1.g.toks]; exact c1
+    simp only [this, ne_eq, not_true_eq_false, if_false]
+    exact Sat.pure g1.evs
+  exact key
+
 end Cook
